@@ -303,8 +303,9 @@ pub fn run(ctx: &Ctx) -> (Spec, Report) {
                     }
                     for deco in &eff.default_decorators {
                         rep.count("file_only_settings_checked_on_text", 1);
-                        for name in ["UserId", "Account", "Paged"] {
-                            let d = decl(name);
+                        // every generated type, the stand-in for `()` included (a struct that is Equatable needs Equatable members)
+                        for name in ["UserId", "Account", "Paged", "CodableVoid"] {
+                            let d = if name == "CodableVoid" { got.lines().find(|l| l.contains("struct CodableVoid")).unwrap_or("").to_string() } else { decl(name) };
                             if !d.split(':').nth(1).map(|cs| cs.split(|ch| ch == ',' || ch == '{').any(|x| x.trim() == deco)).unwrap_or(false) && !d.contains(&format!(": {deco}")) && !d.contains(&format!(", {deco}")) {
                                 rep.violate(format!("C20|swift|file-only-setting-not-applied|default_decorators"), format!("default decorator {deco} is missing on `{}`", d.trim()), detail(json!({"declaration": d, "decorator": deco})));
                             }
